@@ -49,6 +49,24 @@ theorem C12_execute (c : Cpu) (b : UInt8) (h : c.arch.iff1 = false) :
   obtain ⟨e1, e2, e3, e4, e5, e6, e7, e8⟩ := e
   exact ⟨e1, e2, e3, e4, e5, e6, e7, e8, h2, by rw [h3]⟩
 
+/-- timed stepping does not see the masked request either: same request for a sleep, same slice counters
+    (nothing is booked for a request that is not accepted), same architectural outcome -/
+theorem C12_timed (c : Cpu) (b : UInt8) (el : Option UInt32) (h : c.arch.iff1 = false) :
+    let t1 := executeTimed { c with arch := { c.arch with int := some b } } el
+    let t0 := executeTimed { c with arch := { c.arch with int := none } } el
+    t1.2 = t0.2 ∧ t1.1.slice = t0.1.slice ∧ t1.1.debug = t0.1.debug ∧
+    ({ t1.1.arch with int := none } : Arch) = { t0.1.arch with int := none } := by
+  obtain ⟨h1, h2, h3⟩ := C12_step c.arch b h
+  have e2 : (step { c with arch := { c.arch with int := some b } }).2 = (step { c with arch := { c.arch with int := none } }).2 := h2
+  have e3 : (step { c with arch := { c.arch with int := some b } }).1.debug =
+      (step { c with arch := { c.arch with int := none } }).1.debug := by
+    show updateDebug c.debug _ = updateDebug c.debug _
+    rw [h3]
+  refine ⟨rfl, ?_, e3, h1⟩
+  simp only [executeTimed, sliceFires]
+  rw [e2]
+  rfl
+
 /-- non-vacuity: RST 10 fetched from memory with a masked request pending pushes the following address -/
 example :
     let a : Arch := { bus := { mem := #[0xD7, 0, 0, 0, 0, 0, 0, 0] }, reg := { sp := 8 }, int := some 0xCF, iff1 := false }
